@@ -8,8 +8,8 @@ open Mhd.Gen.Tmo
 
 /-! ### updates that touch no list and no stamp/timeout/suspended flag -/
 
-theorem inv_epollUpdate {d : Daemon} (h : Inv d) (i : Id) (hi : i ∈ d.conns) : Inv (epollUpdate d i) := by
-  unfold epollUpdate
+theorem inv_epollArm {d : Daemon} (h : Inv d) (i : Id) (hi : i ∈ d.conns ∨ i ∈ d.cleanup) : Inv (epollArm d i) := by
+  unfold epollArm
   dsimp only
   split
   · rename_i hc
@@ -21,12 +21,45 @@ theorem inv_epollUpdate {d : Daemon} (h : Inv d) (i : Id) (hi : i ∈ d.conns) :
     all_goals rfl
   · exact h
 
-theorem others_epollUpdate (d : Daemon) (i : Id) : Others i d (epollUpdate d i) := by
+theorem inv_epollQueue {d : Daemon} (h : Inv d) (i : Id) (hi : i ∈ d.conns ∨ i ∈ d.cleanup) : Inv (epollQueue d i) := by
+  unfold epollQueue
+  split
+  · rename_i hc
+    apply inv_iness h
+    case hnde => exact List.nodup_cons.2 ⟨hc.2.2, h.ndEready⟩
+    case hnep => intro he; simp at he; simp [he] at hc
+    case hrdy => intro j hj; simp at hj; grind
+    case hc => intro j; exact ⟨rfl, rfl, rfl⟩
+    all_goals rfl
+  · exact h
+
+theorem epollQueue_same (d : Daemon) (i : Id) :
+    (epollQueue d i).conns = d.conns ∧ (epollQueue d i).cleanup = d.cleanup ∧ (epollQueue d i).c = d.c := by
+  unfold epollQueue; split <;> exact ⟨rfl, rfl, rfl⟩
+
+theorem inv_epollUpdate' {d : Daemon} (h : Inv d) (i : Id) (hi : i ∈ d.conns ∨ i ∈ d.cleanup) : Inv (epollUpdate d i) := by
   unfold epollUpdate
+  have s := epollQueue_same d i
+  exact inv_epollArm (inv_epollQueue h i hi) i (by rw [s.1, s.2.1]; exact hi)
+
+theorem inv_epollUpdate {d : Daemon} (h : Inv d) (i : Id) (hi : i ∈ d.conns) : Inv (epollUpdate d i) :=
+  inv_epollUpdate' h i (Or.inl hi)
+
+theorem others_epollArm (d : Daemon) (i : Id) : Others i d (epollArm d i) := by
+  unfold epollArm
   dsimp only
   split
   · refine ⟨rfl, rfl, rfl, ⟨rfl, rfl⟩, ?_⟩; intro j hj; simp [hj]
   · exact Others.refl i d
+
+theorem others_epollQueue (d : Daemon) (i : Id) : Others i d (epollQueue d i) := by
+  unfold epollQueue
+  split
+  · refine ⟨rfl, rfl, rfl, ⟨rfl, rfl⟩, ?_⟩; intro j hj; simp
+  · exact Others.refl i d
+
+theorem others_epollUpdate (d : Daemon) (i : Id) : Others i d (epollUpdate d i) :=
+  Others.trans (others_epollQueue d i) (others_epollArm _ i)
 
 theorem inv_idleCheck {d : Daemon} (h : Inv d) (i : Id) (hi : i ∈ d.conns) : Inv (idleCheck d i).1 := by
   unfold idleCheck
@@ -49,11 +82,10 @@ theorem others_closeOther (d : Daemon) (i : Id) (code : Nat) : Others i d (close
   others_set i d _
 
 theorem idleCheck_conns (d : Daemon) (i : Id) : (idleCheck d i).1.conns = d.conns ∧ (idleCheck d i).1.cleanup = d.cleanup := by
-  unfold idleCheck epollUpdate
+  unfold idleCheck epollUpdate epollArm epollQueue
   dsimp only
-  split
-  · exact ⟨rfl, rfl⟩
-  · split <;> exact ⟨rfl, rfl⟩
+  repeat' split
+  all_goals exact ⟨rfl, rfl⟩
 
 /-! ### MHD_connection_handle_idle -/
 
@@ -75,23 +107,16 @@ theorem inv_handleIdle {d : Daemon} (h : Inv d) (i : Id) (hi : IdleOk d i) :
     rcases hi with hi | hi
     · exact inv_idleCheck h i hi
     · -- in the cleanup list or suspended: the timeout check touches no list
-      unfold idleCheck epollUpdate
+      unfold idleCheck
       dsimp only
       split
       · exact inv_set_iness h i _ rfl rfl rfl
-      · split
-        · rename_i hcond
-          apply inv_iness h
-          case hnde => exact h.ndEready
-          case hnep => intro he; simp at he; simp [he] at hcond
-          case hrdy =>
-            intro j hj; simp at hj
-            rcases hi with hi | hi
-            · grind
-            · simp [hi.1] at hcond
-          case hc => intro j; by_cases e : j = i <;> simp [e]
-          all_goals rfl
-        · exact h
+      · rcases hi with hi | hi
+        · exact inv_epollUpdate' h i (Or.inr hi)
+        · -- suspended: neither queued nor armed
+          have e1 : epollQueue d i = d := by simp [epollQueue, procWait, hi.1]
+          have e2 : epollArm d i = d := by simp [epollArm, hi.1]
+          unfold epollUpdate; rw [e1, e2]; exact h
 
 theorem others_handleIdle (d : Daemon) (i : Id) : Others i d (handleIdle d i).1 := by
   unfold handleIdle
@@ -99,16 +124,72 @@ theorem others_handleIdle (d : Daemon) (i : Id) : Others i d (handleIdle d i).1 
   · exact others_cleanupConnection d i
   · exact others_idleCheck d i
 
+/-! ### upload data left in the buffer, the daemon-wide pending flag -/
+
+theorem procBuf_cases (d : Daemon) (i : Id) :
+    procBuf d i = d ∨ procBuf d i = d.set i { (d.c i) with buf := bufAfterCall (d.c i) } := by
+  unfold procBuf; dsimp only; split
+  · exact Or.inr rfl
+  · exact Or.inl rfl
+
+theorem inv_procBuf {d : Daemon} (h : Inv d) (i : Id) : Inv (procBuf d i) := by
+  rcases procBuf_cases d i with e | e <;> rw [e]
+  · exact h
+  · exact inv_set_iness h i _ rfl rfl rfl
+
+theorem others_procBuf (d : Daemon) (i : Id) : Others i d (procBuf d i) := by
+  rcases procBuf_cases d i with e | e <;> rw [e]
+  · exact Others.refl i d
+  · exact others_set i d _
+
+theorem procBuf_same (d : Daemon) (i : Id) :
+    (procBuf d i).conns = d.conns ∧ (procBuf d i).cleanup = d.cleanup ∧ (procBuf d i).now = d.now ∧
+    ((procBuf d i).c i).closed = (d.c i).closed ∧ ((procBuf d i).c i).suspended = (d.c i).suspended ∧
+    ((procBuf d i).c i).la = (d.c i).la ∧ ((procBuf d i).c i).tmo = (d.c i).tmo ∧
+    ((procBuf d i).c i).aware = (d.c i).aware := by
+  rcases procBuf_cases d i with e | e <;> rw [e] <;> simp
+
+theorem inv_handleIdleP {d : Daemon} (h : Inv d) (i : Id) (hi : IdleOk d i) : Inv (handleIdleP d i).1 := by
+  unfold handleIdleP
+  have s := procBuf_same d i
+  refine inv_handleIdle (inv_procBuf h i) i ?_
+  unfold IdleOk at *
+  rw [s.1, s.2.1, s.2.2.2.1, s.2.2.2.2.1]; exact hi
+
+theorem others_handleIdleP (d : Daemon) (i : Id) : Others i d (handleIdleP d i).1 :=
+  Others.trans (others_procBuf d i) (others_handleIdle _ i)
+
+theorem notePending_eq (v : Variant) (d : Daemon) (i : Id) :
+    notePending v d i = { d with dataPending := (notePending v d i).dataPending } := by
+  unfold notePending
+  repeat' split
+  all_goals rfl
+
+theorem inv_dp {d : Daemon} (h : Inv d) (b : Bool) : Inv { d with dataPending := b } := by
+  constructor
+  all_goals first
+    | exact h.nofault | exact h.ndConns | exact h.ndNormal | exact h.ndManual | exact h.ndSusp
+    | exact h.ndNew | exact h.ndClean | exact h.ndEready | exact h.connsIff | exact h.normalT | exact h.manualT
+    | exact h.connsS | exact h.suspS | exact h.newT | exact h.disjNew | exact h.disjClean | exact h.laLe
+    | exact h.usedAll | exact h.ready | exact h.nonEpoll | exact h.sorted | exact h.tmoB | exact h.dtmoB
+
+theorem inv_notePending {d : Daemon} (h : Inv d) (v : Variant) (i : Id) : Inv (notePending v d i) := by
+  rw [notePending_eq]; exact inv_dp h _
+
+theorem others_notePending (v : Variant) (d : Daemon) (i j : Id) : Others j d (notePending v d i) := by
+  rw [notePending_eq]
+  refine ⟨rfl, rfl, rfl, ⟨rfl, rfl⟩, ?_⟩; intro k _; exact ⟨Iff.rfl, Iff.rfl, Iff.rfl, rfl⟩
+
 /-! ### reading client data -/
 
 theorem inv_readData {v : Variant} (hv : v.actSorted = true) {d : Daemon} (h : Inv d) (i : Id) (hi : i ∈ d.conns) :
     Inv (readData v d i).1 := by
   unfold readData
   dsimp only
-  have h1 : Inv (d.set i { (d.c i) with unread := false, readReady := false }) :=
+  have h1 : Inv (d.set i (readRec (d.c i))) :=
     inv_set_iness h i _ rfl rfl rfl
   have h2 := inv_updateLastActivity hv h1 i (by simpa using hi)
-  have hi2 : i ∈ (updateLastActivity v (d.set i { (d.c i) with unread := false, readReady := false }) i).conns := by
+  have hi2 : i ∈ (updateLastActivity v (d.set i (readRec (d.c i))) i).conns := by
     rw [updateLastActivity_conns]; simpa using hi
   split
   · split
@@ -121,7 +202,7 @@ theorem inv_readData {v : Variant} (hv : v.actSorted = true) {d : Daemon} (h : I
 theorem others_readData (v : Variant) (d : Daemon) (i : Id) : Others i d (readData v d i).1 := by
   unfold readData
   dsimp only
-  have o1 := others_set i d { (d.c i) with unread := false, readReady := false }
+  have o1 := others_set i d (readRec (d.c i))
   have o2 := Others.trans o1 (others_updateLastActivity v _ i)
   split
   · split
@@ -149,20 +230,19 @@ theorem readData_post (v : Variant) {d : Daemon} (i : Id) (hi : i ∈ d.conns) (
     IdleOk (readData v d i).1 i := by
   unfold readData
   dsimp only
-  have hi2 : i ∈ (updateLastActivity v (d.set i { (d.c i) with unread := false, readReady := false }) i).conns := by
+  have hi2 : i ∈ (updateLastActivity v (d.set i (readRec (d.c i))) i).conns := by
     rw [updateLastActivity_conns]; simpa using hi
-  have hc2 : ((updateLastActivity v (d.set i { (d.c i) with unread := false, readReady := false }) i).c i).closed
-      = false := by rw [updateLastActivity_closed]; simpa using hc
+  have hc2 : ((updateLastActivity v (d.set i (readRec (d.c i))) i).c i).closed
+      = false := by rw [updateLastActivity_closed]; simpa [readRec] using hc
   split
   · split
     · have p := internalSuspend_post
-        ((updateLastActivity v (d.set i { (d.c i) with unread := false, readReady := false }) i).set i
-          { ((updateLastActivity v (d.set i { (d.c i) with unread := false, readReady := false }) i).c i) with
-            aware := true, wantSusp := false }) i (by simpa using hi2)
+        ((updateLastActivity v (d.set i (readRec (d.c i))) i).set i
+          (suspRec ((updateLastActivity v (d.set i (readRec (d.c i))) i).c i))) i (by simpa using hi2)
       rcases p.1 with q | q
       · exact Or.inl q
       · refine Or.inr (Or.inr ⟨q, ?_⟩)
-        rw [p.2]; simpa using hc2
+        rw [p.2]; simpa [suspRec] using hc2
     · exact Or.inl (by simpa using hi2)
   · exact Or.inl hi2
 
@@ -170,7 +250,10 @@ theorem readData_post (v : Variant) {d : Daemon} (i : Id) (hi : i ∈ d.conns) (
 
 theorem inv_callHandlersSel {v : Variant} (hv : v.actSorted = true) {d : Daemon} (h : Inv d) (i : Id) (r : Bool)
     (hi : i ∈ d.conns) : Inv (callHandlersSel v d i r).1 := by
-  unfold callHandlersSel seq2
+  unfold callHandlersSel
+  dsimp only
+  apply inv_notePending
+  unfold callHandlersSel0 seq2
   dsimp only
   split
   · exact inv_handleIdle h i (Or.inl hi)
@@ -179,10 +262,10 @@ theorem inv_callHandlersSel {v : Variant} (hv : v.actSorted = true) {d : Daemon}
     · exact inv_handleIdle (inv_readData hv h i hi) i (readData_post v i hi (by simpa using hc))
     · split
       · exact inv_handleIdle (inv_closeOther h i _) i (Or.inl (by simpa [closeOther] using hi))
-      · exact inv_handleIdle h i (Or.inl hi)
+      · exact inv_handleIdleP h i (Or.inl hi)
 
-theorem others_callHandlersSel (v : Variant) (d : Daemon) (i : Id) (r : Bool) : Others i d (callHandlersSel v d i r).1 := by
-  unfold callHandlersSel seq2
+theorem others_callHandlersSel0 (v : Variant) (d : Daemon) (i : Id) (r : Bool) : Others i d (callHandlersSel0 v d i r).1 := by
+  unfold callHandlersSel0 seq2
   dsimp only
   split
   · exact others_handleIdle d i
@@ -190,7 +273,10 @@ theorem others_callHandlersSel (v : Variant) (d : Daemon) (i : Id) (r : Bool) : 
     · exact Others.trans (others_readData v d i) (others_handleIdle _ i)
     · split
       · exact Others.trans (others_closeOther d i _) (others_handleIdle _ i)
-      · exact others_handleIdle d i
+      · exact others_handleIdleP d i
+
+theorem others_callHandlersSel (v : Variant) (d : Daemon) (i : Id) (r : Bool) : Others i d (callHandlersSel v d i r).1 :=
+  Others.trans (others_callHandlersSel0 v d i r) (others_notePending v _ i i)
 
 theorem inv_travSel (v : Variant) (hv : v.actSorted = true) (rs : List Id) : ∀ (l : List Id) (d : Daemon), Inv d → l.Nodup →
     (∀ i, i ∈ l → i ∈ d.conns) → Inv (travSel v rs l d).1
@@ -439,10 +525,10 @@ theorem inv_scanManual : ∀ (l : List Id) (d : Daemon), Inv d → l.Nodup → (
     dsimp only
     have hi : i ∈ d.conns := hm i (List.mem_cons_self ..)
     have hnd' := List.nodup_cons.1 hnd
-    refine inv_scanManual rest _ (inv_handleIdle h i (Or.inl hi)) hnd'.2 ?_
+    refine inv_scanManual rest _ (inv_handleIdleP h i (Or.inl hi)) hnd'.2 ?_
     intro j hj
     have hji : j ≠ i := fun e => hnd'.1 (e ▸ hj)
-    exact (((others_handleIdle d i).2.2.2.2 j hji).1).2 (hm j (List.mem_cons_of_mem _ hj))
+    exact (((others_handleIdleP d i).2.2.2.2 j hji).1).2 (hm j (List.mem_cons_of_mem _ hj))
 
 theorem inv_scanNormal : ∀ (l : List Id) (d : Daemon), Inv d → l.Nodup → (∀ i, i ∈ l → i ∈ d.conns) →
     Inv (scanNormal l d).1
@@ -452,14 +538,14 @@ theorem inv_scanNormal : ∀ (l : List Id) (d : Daemon), Inv d → l.Nodup → (
     dsimp only
     have hi : i ∈ d.conns := hm i (List.mem_cons_self ..)
     have hnd' := List.nodup_cons.1 hnd
-    have h1 := inv_handleIdle h i (Or.inl hi)
+    have h1 := inv_handleIdleP h i (Or.inl hi)
     split
     · unfold seq2
       dsimp only
       refine inv_scanNormal rest _ h1 hnd'.2 ?_
       intro j hj
       have hji : j ≠ i := fun e => hnd'.1 (e ▸ hj)
-      exact (((others_handleIdle d i).2.2.2.2 j hji).1).2 (hm j (List.mem_cons_of_mem _ hj))
+      exact (((others_handleIdleP d i).2.2.2.2 j hji).1).2 (hm j (List.mem_cons_of_mem _ hj))
     · exact h1
 
 theorem inv_eready_shrink {d : Daemon} (h : Inv d) (i : Id) : Inv { d with eready := without d.eready i } := by
@@ -493,14 +579,16 @@ theorem inv_callHandlersE0 {v : Variant} (hv : v.actSorted = true) {d : Daemon} 
       · exact inv_handleIdle h i (Or.inl hic)
       · rename_i hc
         split
+        · exact inv_handleIdleP h i (Or.inl hic)
         · split
-          · exact inv_handleIdle (inv_readData hv h i hic) i (readData_post v i hic (by simpa using hc))
           · split
-            · exact inv_handleIdle (inv_closeOther h i _) i (Or.inl (by simpa [closeOther] using hic))
-            · apply inv_handleIdle
-              · exact inv_set_iness h i _ rfl rfl rfl
-              · exact Or.inl (by simpa using hic)
-        · exact inv_handleIdle h i (Or.inl hic)
+            · exact inv_handleIdle (inv_readData hv h i hic) i (readData_post v i hic (by simpa using hc))
+            · split
+              · exact inv_handleIdle (inv_closeOther h i _) i (Or.inl (by simpa [closeOther] using hic))
+              · apply inv_handleIdle
+                · exact inv_set_iness h i _ rfl rfl rfl
+                · exact Or.inl (by simpa using hic)
+          · exact inv_handleIdle h i (Or.inl hic)
 
 theorem others_callHandlersE0 (v : Variant) (d : Daemon) (i : Id) : Others i d (callHandlersE0 v d i).1 := by
   unfold callHandlersE0 seq2
@@ -509,26 +597,42 @@ theorem others_callHandlersE0 (v : Variant) (d : Daemon) (i : Id) : Others i d (
   all_goals first
     | exact Others.refl i d
     | exact others_handleIdle d i
+    | exact others_handleIdleP d i
     | exact Others.trans (others_closeOther d i _) (others_handleIdle _ i)
     | exact Others.trans (others_readData v d i) (others_handleIdle _ i)
     | exact Others.trans (others_set i d _) (others_handleIdle _ i)
+
+theorem inv_callHandlersE1 {v : Variant} (hv : v.actSorted = true) {d : Daemon} (h : Inv d) (i : Id)
+    (hi : i ∈ d.conns ∨ i ∈ d.cleanup) : Inv (callHandlersE1 v d i).1 := by
+  unfold callHandlersE1
+  dsimp only
+  split
+  · exact inv_callHandlersE0 hv h i hi
+  · exact inv_notePending (inv_callHandlersE0 hv h i hi) v i
+
+theorem others_callHandlersE1 (v : Variant) (d : Daemon) (i : Id) : Others i d (callHandlersE1 v d i).1 := by
+  unfold callHandlersE1
+  dsimp only
+  split
+  · exact others_callHandlersE0 v d i
+  · exact Others.trans (others_callHandlersE0 v d i) (others_notePending v _ i i)
 
 theorem inv_callHandlersE {v : Variant} (hv : v.actSorted = true) {d : Daemon} (h : Inv d) (i : Id)
     (hi : i ∈ d.conns ∨ i ∈ d.cleanup) : Inv (callHandlersE v d i).1 := by
   unfold callHandlersE
   dsimp only
   split
-  · exact inv_eready_shrink (inv_callHandlersE0 hv h i hi) i
-  · exact inv_callHandlersE0 hv h i hi
+  · exact inv_eready_shrink (inv_callHandlersE1 hv h i hi) i
+  · exact inv_callHandlersE1 hv h i hi
 
 theorem others_callHandlersE (v : Variant) (d : Daemon) (i : Id) : Others i d (callHandlersE v d i).1 := by
   unfold callHandlersE
   dsimp only
   split
-  · have o := others_callHandlersE0 v d i
+  · have o := others_callHandlersE1 v d i
     refine Others.trans o ⟨rfl, rfl, rfl, ⟨rfl, rfl⟩, ?_⟩
     intro j _; exact ⟨Iff.rfl, Iff.rfl, Iff.rfl, rfl⟩
-  · exact others_callHandlersE0 v d i
+  · exact others_callHandlersE1 v d i
 
 theorem inv_procEready (v : Variant) (hv : v.actSorted = true) : ∀ (l : List Id) (d : Daemon), Inv d → l.Nodup →
     (∀ i, i ∈ l → i ∈ d.conns ∨ i ∈ d.cleanup) → Inv (procEready v l d).1
